@@ -44,7 +44,7 @@ fn fn_names(items: &[syn::Item]) -> Vec<String> {
 }
 
 fn c02(ctx: &Ctx, r: &mut Report) {
-    let max = if ctx.tier == Tier::Thorough { 3 } else { 2 };
+    let max = if ctx.tier == Tier::Thorough { 4 } else { 2 };
     r.domain = "fn inputs (attributes, qualifiers, bodies with nested groups / macros / unparsable-by-syn tokens); module and impl-block bodies over an alphabet of 23 items (visible fns with every qualifier combination, private fn, struct, const with closure, use, impl, macro_rules, nested mod, extern block, static, type alias, trait, item ending in `};`)".into();
     r.bound = format!("module bodies of length 0..{} (all sequences), plus every single item; 16 fn inputs", max);
     // --- fn inputs: output starts with the input tokens, unchanged
